@@ -214,7 +214,7 @@ func vRingSequence(res *vlib.Result, root *vlib.Rand, capacity, seq int) {
 			ref.set(id, a)
 			record(vRingOp{Op: "set", ID: id.String(), Addr: a.String()})
 			// memory bound
-			if len(m.current) > capacity || len(m.entries) != capacity {
+			if len(m.current) > capacity || len(m.entries) > capacity {
 				rp.Script = append([]vRingOp{}, script...)
 				res.Violatef("ring:memory-bound", rp, "capacity %d: after %d Sets the lookup map holds %d ids and the ring %d slots", capacity, ref.sets, len(m.current), len(m.entries))
 				bad = true
@@ -335,7 +335,7 @@ func vRingConcurrent(res *vlib.Result, root *vlib.Rand, capacity, round int) {
 	if stale > 0 {
 		res.Violatef("ring:stale-address", rp, "concurrent Set/Get with disjoint ids, capacity %d: %d answers were not the id's most recent address (%s)", capacity, stale, example)
 	}
-	if len(m.current) > capacity || len(m.entries) != capacity {
+	if len(m.current) > capacity || len(m.entries) > capacity {
 		res.Violatef("ring:memory-bound", rp, "capacity %d: lookup map holds %d ids, ring %d slots", capacity, len(m.current), len(m.entries))
 	}
 }
